@@ -277,11 +277,13 @@ Fixpoint ins_key (k : bytes) (l : list bytes) : list bytes :=
 Definition keys_of (l : list ent) : list bytes := fold_right (fun e acc => ins_key (ek e) acc) [] l.
 
 (* merged scan: per key the highest visible seqno wins; tombstones hide *)
+Definition vis (I : N) (l : list ent) : list ent := filter (fun e => es e <? I) l.
 Definition scan_ents (l : list ent) (I : N) : list (bytes * bytes) :=
-  flat_map (fun k => match newest k I l with
+  let vl := vis I l in
+  flat_map (fun k => match newest k I vl with
                      | Some e => if is_tomb e then [] else [(k, ev e)]
                      | None => []
-                     end) (keys_of l).
+                     end) (keys_of vl).
 
 Definition t_get (t : tree) (k : bytes) (I : N) : option (option bytes) :=
   match select_version t I with
